@@ -785,10 +785,44 @@ class Builder:
                 r2 = self.r.resolve_call(v, t.ctx())
                 return bool(r2.ctor_of)
             return False
+        # `if isinstance(x, T): return x`: what is returned there is an
+        # object (x is not re-bound in the helper)
+        guarded = set()
+
+        def scan(stmts, known):
+            for st in stmts:
+                if isinstance(st, ast.Return) and \
+                        isinstance(st.value, ast.Name) and \
+                        st.value.id in known:
+                    guarded.add(id(st))
+                elif isinstance(st, ast.If):
+                    more = set()
+                    tests = st.test.values if isinstance(
+                        st.test, ast.BoolOp) and isinstance(
+                        st.test.op, ast.And) else [st.test]
+                    for c in tests:
+                        if isinstance(c, ast.Call) and \
+                                isinstance(c.func, ast.Name) and \
+                                c.func.id == 'isinstance' and \
+                                len(c.args) == 2 and \
+                                isinstance(c.args[0], ast.Name):
+                            more.add(c.args[0].id)
+                    scan(st.body, known | more)
+                    scan(st.orelse, known)
+                elif isinstance(st, (ast.For, ast.While, ast.With, ast.Try)):
+                    for fld in ('body', 'orelse', 'finalbody'):
+                        scan(getattr(st, fld, []) or [], known)
+                    for h in getattr(st, 'handlers', []) or []:
+                        scan(h.body, known)
+        stored = {x.id for x in walk_own(body) if isinstance(x, ast.Name) and
+                  isinstance(x.ctx, (ast.Store, ast.Del))}
+        scan(body.body, set())
         falls_off = True     # conservatively: the end of the body may be hit
         if not nones and not falls_off:
             return False
-        if not objs or not all(obj(r.value) for r in objs):
+        if not objs or not all(
+                obj(r.value) or (id(r) in guarded and
+                                 r.value.id not in stored) for r in objs):
             return False
         self._expr(e.func, frame)
         for a in e.args:
